@@ -40,10 +40,13 @@ type c14Case struct {
 	RetryMax int        `json:"retry_max"`
 	Msgs     []wire.Hex `json:"msgs"` // payloads; message i on the wire is {"i":<i>,"p":"<payload>"} — see c14Message
 	Breaks   []c14Break `json:"breaks,omitempty"`
+	// AgeMS: how long the producer has been up (connected, idle) before the first message is handed over; a break
+	// late in the producer's life must be handled like one right after start-up
+	AgeMS int `json:"age_ms,omitempty"`
 }
 
 const c14Rule = "case = raw-socket producer configuration (tcp | udp, retry-max 0..4) + 1..300 messages (1 octet..48 KiB; JSON-like text rich in %d %s %% %! verbs, quotes, UTF-8 and arbitrary non-newline octets, each tagged with its index) " +
-	"+ fault plan (tcp): none, or 1..3 breaks (after message i the sink closes gracefully | resets the connection, optionally stops listening for a drawn downtime), or a stall plan (the sink stops reading while 30..60 messages of 48 KiB follow, so that a write blocks half-way, then resets); the real producer.NewProducer(\"rawSocket\").Run() writes to a sink owned by the harness; " +
+	"+ fault plan (tcp): none, or 1..3 breaks (after message i the sink closes gracefully | resets the connection, optionally stops listening for a drawn downtime), or a stall plan (the sink stops reading while 30..60 messages of 48 KiB follow, so that a write blocks half-way, then resets); with a fault plan the producer may have been up and idle for 0.4..5.5 s (thorough: ..31 s) before traffic starts; the real producer.NewProducer(\"rawSocket\").Run() writes to a sink owned by the harness; " +
 	"oracle without fault = the sink's byte stream is exactly concat(message + newline) (udp: one datagram per message, paced); with faults (every break index is a fault point) = the complete lines received over all connections are " +
 	"byte-identical input messages with strictly increasing indices (no duplicate, no corruption, no reordering), and once the sink is reachable again probe messages handed over one at a time resume delivery within retry-max+4 probes with nothing missing afterwards; " +
 	"non-trivial = a message contains '%' or is >= 4 KiB, or the plan has a break; distinct by hash"
@@ -124,6 +127,11 @@ func genC14(t *rapid.T) c14Case {
 			b.PauseMS = rapid.SampledFrom([]int{0, 0, 2, 20}).Draw(t, "pausems")
 			c.Breaks = append(c.Breaks, b)
 		}
+		ages := []int{0, 0, 0, 0, 0, 0, 0, 0, 0, 0, 400, 1500, 3200, 5500}
+		if os.Getenv("VERIF_TIER") == "thorough" {
+			ages = append(append(ages, ages...), 0, 0, 11000, 31000)
+		}
+		c.AgeMS = rapid.SampledFrom(ages).Draw(t, "agems")
 	}
 	return c
 }
@@ -379,6 +387,13 @@ func runC14(c *c14Case) (v verdict, sig string, err error) {
 	brkAt := map[int]c14Break{}
 	for _, b := range c.Breaks {
 		brkAt[b.After-1] = b
+	}
+	if c.AgeMS > 0 {
+		if c.AgeMS > 60000 {
+			return v, "", fmt.Errorf("bad case: age")
+		}
+		time.Sleep(time.Duration(c.AgeMS) * time.Millisecond)
+		v.label(c.AgeMS >= 3000, "producer-up>=3s-before-break")
 	}
 	for i, m := range wireMsgs {
 		ch <- append([]byte{}, m...)
